@@ -772,8 +772,17 @@ def reattach_cases(ctx):
             continue                       # the first attachment itself is refused: covered by the generated histories
         via_other = r.random() < 0.5
         n1, n2 = r.randint(1, 3 * a), 4 * b + r.randint(0, b)
-        dev = Pulses(d)
-        case = {"timeline_rate": a, "new_timeline_rate": b, "device_rate": d, "detached_in_between": via_other, "ticks_before": n1}
+        # rates come in every integer-valued type a program may compute them in: the ratio (or the refusal) is the same
+        from fractions import Fraction as _F
+        try:
+            import numpy as _np
+            kinds = [int, int, int, _np.int64, _np.int32, _F, float]
+        except ImportError:
+            kinds = [int, int, int, _F, float]
+        kd, kb = r.choice(kinds), r.choice(kinds)
+        dev = Pulses(kd(d))
+        case = {"timeline_rate": a, "new_timeline_rate": b, "device_rate": d, "detached_in_between": via_other, "ticks_before": n1,
+                "device_rate_type": kd.__name__, "timeline_rate_type": kb.__name__}
         problem = None
         try:
             tl = iso.Timeline(output_device=dev, clock_source=iso.DummyClock())
@@ -782,7 +791,7 @@ def reattach_cases(ctx):
             drive(tl, dev, n1)
             if via_other:
                 tl.output_device = iso.io.DummyOutputDevice()
-            tl.ticks_per_beat = b
+            tl.ticks_per_beat = kb(b)
             refused = False
             try:
                 tl.output_device = dev
